@@ -27,7 +27,7 @@ func TestC06(t *testing.T) {
 		ID: "C06",
 		Cfg: core.SimConfig{
 			Prop:            "C06",
-			Owned:           core.Own(core.CatPanicTarget, core.CatInvNode, core.CatInvTable),
+			Owned:           core.Own(core.CatPanicTarget, core.CatInvNode, core.CatInvTable, core.CatCorrupt),
 			Verify:          core.FullVerify,
 			CheckRelQueries: true,
 			ScanRegistered:  true,
@@ -71,6 +71,10 @@ func TestC06(t *testing.T) {
 		Setup: func(rt *rapid.T, sim *core.Sim, g *core.Gen) {
 			g.TargetRemovalPct = 60
 			g.DeadFilterTargets = true
+			// now and then a relation call with illegal arguments (also batch calls that panic half way):
+			// whatever was applied, the world stays consistent
+			g.Illegal = []string{core.IllRelMissing, core.IllDeadTarget, core.IllSecondRel}
+			g.IllegalPct = 5
 		},
 		Rule: "histories biased to: create parents, attach children (several relation nodes), remove parents while their tables are empty / non-empty / become empty later (by removal, move, batch operation, Reset), self-targets, parents removed in the same RemoveEntities call as their children, then reuse of the same component sets with new targets; oracle after every op: removals never panic, children stay alive with identical components and values and still report the dead handle (also as OldTarget of the events a listener receives, in the half of the cases that install one), Query(RelationFilter(All(r),t)) for every live and every dead target equals the model (nothing shows up under a foreign target), rows of reused tables read zero, node/free-list/target-map invariants through the hook; non-trivial = a retired table was reused (hook: retired-table count dropped) after a target died; without hooks: a target died and a later op put entities under another target",
 		Observe: func(tr *tracker, op *core.Op) {
